@@ -123,11 +123,15 @@ class Gen:
     def bool_expr(self, scope, depth=2, subq=False):
         r = self.r
         alias, table = r.choice(scope)
-        kinds = ['cmp', 'cmp', 'colconst', 'colconst', 'and', 'or', 'not', 'in', 'between', 'like', 'isnull', 'isnotnull', 'paren', 'txtcmp', 'notin', 'notlike', 'ne']
+        kinds = ['cmp', 'cmp', 'colconst', 'colconst', 'and', 'or', 'not', 'in', 'between', 'like', 'isnull', 'isnotnull', 'paren', 'txtcmp', 'notin', 'notlike', 'ne',
+                 'cmpnull']
         if subq:
             kinds += ['insub', 'notinsub', 'exists', 'notexists', 'scalar']
         k = r.choice(kinds) if depth > 0 else r.choice(['cmp', 'colconst', 'isnull', 'in', 'txtcmp'])
         self.features.add('bool:' + k)
+        if k == 'cmpnull':
+            # a comparison WITH the NULL literal is never true (it is not IS NULL)
+            return f'{self.any_col(alias, table)} {r.choice(["=", "!=", "<>", "<", ">="])} NULL'
         if k == 'colconst':
             # the shape planners push down: one column against one constant, written either way round
             op = r.choice(['=', '<', '<=', '>', '>=', '!='])
@@ -269,10 +273,13 @@ class Gen:
             terms = []
             if r.random() < 0.6:
                 al, tb = r.choice(scope)
-                d = r.choice(['', ' ASC', ' DESC'])
-                nl = r.choice(['', '', ' NULLS FIRST', ' NULLS LAST'])
-                self.features.add('order' + d + nl)
-                terms.append(f'{self.any_col(al, tb)}{d}{nl}')
+                d = r.choice(['', ' ASC', ' DESC', ' desc', ' Desc', ' asc'])
+                nl = r.choice(['', '', ' NULLS FIRST', ' NULLS LAST', ' nulls first', ' Nulls Last'])
+                self.features.add('order' + d.upper() + nl.upper())
+                # a plain column, or an expression over columns (never an ordinal: `ORDER BY 1` is a position, not a value)
+                key = self.any_col(al, tb) if r.random() < 0.7 else r.choice([f'abs({self.num_col(al, tb)})', f'{self.num_col(al, tb)} + 1', f'- {self.num_col(al, tb)}',
+                                                                               f'coalesce({self.num_col(al, tb)}, 0)'])
+                terms.append(f'{key}{d}{nl}')
             # total order: all ids (NULL ids from outer joins: fix their place)
             for al, _ in scope:
                 terms.append(f'{al}.id{r.choice(["", " DESC"])} NULLS LAST')
@@ -348,7 +355,7 @@ class Gen:
         t = r.choice(['t1', 't2'])
         fn = r.choice(['row_number()', 'rank()', 'sum(p.id)', 'count(*)'])
         part = f'PARTITION BY p.a ' if r.random() < 0.7 else ''
-        d = r.choice(['', ' DESC'])
+        d = r.choice(['', ' DESC', ' desc', ' Desc', ' ASC', ' asc'])
         return f'SELECT p.id AS id, {fn} OVER ({part}ORDER BY p.id{d}) AS w FROM {self.qual(t)} AS p', False
 
     def dml(self):
